@@ -5,11 +5,12 @@ ID = "C19"
 LEVEL = "proof"
 LEAN_MODULE = "Frost.Props.C19"
 THEOREMS = ["Frost.C19.batch_empty", "Frost.C19.single_eq_verify", "Frost.C19.batchLoop_eq", "Frost.C19.batch_eq",
-            "Frost.C19.batch_accepts_valid", "Frost.C19.combo_split", "Frost.C19.batch_rejects_invalid", "Frost.C18.taproot_mirror_rejected"]
+            "Frost.C19.batch_accepts_valid", "Frost.C19.combo_split", "Frost.C19.batch_rejects_invalid", "Frost.C19.batch_decides", "Frost.C19.batch_accepts_valid'",
+            "Frost.C19.batch_accepts_at_most_one_blinder", "Frost.C18.taproot_mirror_rejected"]
 RULE = ("one case = one batch (suite, size, keys/messages mix, positions and kinds of invalid items, blinder tape) or one single-item comparison; "
         "non-trivial = the verifier drew its blinders and evaluated the combined equation (size >= 1), or the empty-batch guard fired; distinct = hash of the batch request")
 ASSUMPTIONS = ["rejection of an invalid batch holds except for at most one value of each invalid item's blinder (counting lemma batch_rejects_invalid = probability <= 1/q over the verifier's randomness); the oracle expects rejection on all suites but toy16 (q = 65537), where the model's outcome is the expectation",
-               "MsmSound and no panic in the multiscalar multiplication (compared with the code on every request; C14)"]
+               "batch_eq / batch_accepts_valid take MsmSound and no-panic as hypotheses; the closed forms batch_decides / batch_accepts_valid' / batch_accepts_at_most_one_blinder discharge both (msmSound_of_leSound, batchVerify_np) and assume only LeSound: little_endian_serialize is the fixed-length little-endian encoding (compared with the code on every request; C01, C14)"]
 TRUSTED = ["modelled, not verified: field/module laws of the curve libraries"]
 
 
